@@ -124,6 +124,26 @@ type Prop interface {
 	Describe() Description
 }
 
+// ExtraPhaser is implemented by properties that have a second layer of
+// checking with its own way of producing executions (e.g. compiled programs
+// under an LD_PRELOAD scheduler).  It runs in the parent process after the batch.
+type ExtraPhaser interface {
+	ExtraPhase(tier string, seed uint64, deadline time.Time) (*ExtraResult, error)
+	ReplayExtra(raw []byte) (class, detail string, err error)
+}
+
+type ExtraResult struct {
+	Name        string
+	Evaluations int
+	Coverage    map[string]any
+	Violations  []ExtraViolation
+}
+
+type ExtraViolation struct {
+	Class, Detail, Name string
+	Replay              []byte
+}
+
 type Description struct {
 	Rule                        string
 	Components                  []Component
@@ -682,6 +702,36 @@ func batch(p Prop, seed uint64, tier string, count int, budget float64, workers 
 		_ = n
 	}
 
+	var extraCov map[string]any
+	extraName := ""
+	if ex, ok := p.(ExtraPhaser); ok {
+		eb := 60.0
+		if tier == "thorough" {
+			eb = 900
+		}
+		if v := os.Getenv("VERIF_EXTRA_BUDGET_S"); v != "" {
+			if f, err := strconv.ParseFloat(v, 64); err == nil {
+				eb = f
+			}
+		}
+		er, err := ex.ExtraPhase(tier, seed, time.Now().Add(time.Duration(eb*float64(time.Second))))
+		if err != nil {
+			fmt.Fprintf(os.Stderr, "INFRASTRUCTURE: %v\n", err)
+			return 2
+		}
+		if er != nil {
+			extraCov, extraName = er.Coverage, er.Name
+			extraCov["evaluations"] = er.Evaluations
+			for _, v := range er.Violations {
+				os.MkdirAll(filepath.Join(verifDir, "replays"), 0o755)
+				path := filepath.Join(verifDir, "replays", fmt.Sprintf("%s-%d-%s.json", p.ID(), seed, v.Name))
+				os.WriteFile(path, v.Replay, 0o644)
+				fmt.Printf("VIOLATION property=%s replay=%s\n  class=%s: %s\n", p.ID(), path, v.Class, v.Detail)
+				reported = append(reported, map[string]any{"class": v.Class, "replay": path, "detail": v.Detail, "layer": er.Name})
+				exit = 1
+			}
+		}
+	}
 	if len(unrepro) > 0 {
 		if exit == 0 {
 			fmt.Fprintf(os.Stderr, "INFRASTRUCTURE: worker process(es) crashed in run(s) %v but neither those runs nor the runs before them crash a fresh process, and nothing else was found\n", unrepro)
@@ -750,6 +800,9 @@ func batch(p Prop, seed uint64, tier string, count int, budget float64, workers 
 		"workers":                            workers,
 		"exploration_wall_s":                 exploreWall,
 	}
+	if extraCov != nil {
+		cov[extraName] = extraCov
+	}
 	ev := map[string]any{
 		"property_id": p.ID(), "tier": tier, "seed": int64(seed), "level": "exploration", "coverage": cov,
 		"assumptions": d.Assumptions, "wall_s": wall, "violations": unlisted,
@@ -799,6 +852,27 @@ func doReplay(p Prop, path string) int {
 	if err != nil {
 		fmt.Fprintf(os.Stderr, "%v\n", err)
 		return 2
+	}
+	var probe struct {
+		Layer string `json:"layer"`
+	}
+	if json.Unmarshal(b, &probe) == nil && probe.Layer != "" {
+		ex, ok := p.(ExtraPhaser)
+		if !ok {
+			fmt.Fprintf(os.Stderr, "replay file is for layer %q, which this harness does not have\n", probe.Layer)
+			return 2
+		}
+		cls, det, err := ex.ReplayExtra(b)
+		if err != nil {
+			fmt.Fprintf(os.Stderr, "%v\n", err)
+			return 2
+		}
+		if cls != "" {
+			fmt.Printf("VIOLATION property=%s replay=%s\n  class=%s: %s\n", p.ID(), path, cls, det)
+			return 1
+		}
+		fmt.Printf("replay %s: no violation now\n", path)
+		return 0
 	}
 	var rp Replay
 	if err := json.Unmarshal(b, &rp); err != nil {
